@@ -30,7 +30,12 @@ RULE = (
     "thorough, whatever the seed): ONE scaler object (every scaler, target, criteria_range / clip / with_mean / with_std / value "
     "setting) transforms 2 or 3 DIFFERENT decision matrices with the same number of criteria one after the other (alternatives and "
     "their number, objectives, weights, dtypes and magnitude drawn afresh for each); every output is judged against the normal form "
-    "of ITS OWN input and against the model's answer for that input (one model request per transformed matrix). Three legs: implementation vs an independent Fraction / 60-digit Decimal evaluation of the normal form and the "
+    "of ITS OWN input and against the model's answer for that input (one model request per transformed matrix). Plus LARGE LEVEL / SMALL SPREAD data, a fixed share of every run whatever the seed (120 quick, "
+    "1500 thorough; StandarScaler, CenitDistanceMatrixScaler, MinMaxScaler, VectorScaler, SumScaler get 1/5 each, their targets and "
+    "with_mean x with_std / criteria_range x clip cycled): 3 of 4 criteria (the others ordinary) and the weight vector (always when it "
+    "is in the target, else 1/3) are unix timestamps within minutes, gauge readings b.1 .. b.9 around 1e6 .. 9e6, odometer readings "
+    "1e7 .. 9e8 within 60, prices in cents near 2.5e6 within 25, or values around 2.5e8 differing by quarters (level / spread 1e5 .. "
+    "1e9); whole-number kinds int64 half of the time. Three legs: implementation vs an independent Fraction / 60-digit Decimal evaluation of the normal form and the "
     "cell formula (property oracle), and implementation vs the Lean model (exact Rat; Lean Float for Vector/Standard). "
     "Non-trivial: every generated case (>= 2 alternatives and >= 2 criteria, non-constant columns); distinct by case hash."
 )
@@ -42,6 +47,12 @@ ASSUMPTIONS = [
     "generator guards (DESIGN section 14): population std >= 1e-4 * max(1, |mean|) (tiny data: max(2^-40, |mean|), and std >= 2^-41), range >= 1e-3 * max|x|, |sum| >= 0.05 * sum|x|, "
     "max|x| >= 2^-41 (and range >= 2^-41 for MinMaxScaler: binds on tiny data only): scikit-learn's near-constant thresholds (10 eps, n eps var + (n mean eps)^2) are never approached",
     "scikit-learn's MaxAbsScaler / MinMaxScaler / StandardScaler are external: modelled by their documented formulas",
+    "large-level / small-spread cases only (magnitude 'offset'; every other case keeps the plain 1e-9 * scale): 'up to rounding' for the two "
+    "normal forms that subtract a location of the size of the data (StandarScaler with_mean; MinMaxScaler) additionally allows the rounding "
+    "of doubles of the LEVEL, (k + 4) * 2^-52 * max|x|, expressed in units of the spread (/ std, / range * (hi - lo)): no double-precision "
+    "evaluation of (x - u) / s can do better; SumScaler, VectorScaler, CenitDistanceMatrixScaler and StandarScaler(with_mean=False) get no "
+    "such margin. The generator guards on std / mean and range / max|x| do not apply to these cases (level / spread <= 1e9.3: var is > 1e9 "
+    "times scikit-learn's constant-feature bound)",
 ]
 PARTIAL = ("IEEE rounding, summation order and the correction term of scikit-learn's two-pass variance are not modelled; theorems are over "
            "ordered fields / R, the Float run of the model only accompanies the code")
@@ -254,7 +265,70 @@ def gen(ctx):
     allcfg = [cfg for nm in names for cfg in by_scaler[nm]]
     for i in range(ctx.n(len(allcfg), 14 * len(allcfg))):
         cases.append(make_sequence(rng, allcfg[i % len(allcfg)]))
+    # LARGE LEVEL, SMALL SPREAD: a fixed share of every run whatever the seed; the five scalers whose normal form is relative to the
+    # spread get the same share, their configurations are cycled (StandarScaler: every with_mean x with_std x target in quick)
+    for i in range(ctx.n(120, 1500)):
+        nm = OFFSET_SCALERS[i % len(OFFSET_SCALERS)]
+        lst = by_scaler[nm]
+        cases.append(make_offset_case(rng, lst[(i // len(OFFSET_SCALERS)) % len(lst)]))
     return cases
+
+
+# LARGE LEVEL, SMALL SPREAD: criteria / weight vectors whose level is 1e5 .. 1e9 times their spread (readings of one instrument, events
+# within minutes of each other, prices of near-identical offers).  name -> (whole numbers?, how one vector of k values is drawn)
+OFFSET_KINDS = ["timestamp", "gauge", "odometer", "cents", "bigweight"]
+OFFSET_WHOLE = {"timestamp": True, "gauge": False, "odometer": True, "cents": True, "bigweight": False}
+OFFSET_SCALERS = ["StandarScaler", "CenitDistanceMatrixScaler", "MinMaxScaler", "VectorScaler", "SumScaler"]
+
+
+def offset_vec(rng, kind, k):
+    """a non-constant vector of k values with a large common level and a small spread"""
+    for _ in range(200):
+        if kind == "timestamp":  # unix timestamps (seconds) of events within a few minutes
+            b = rng.randint(1_500_000_000, 1_800_000_000)
+            x = [float(b + rng.randint(0, rng.choice([120, 300, 900]))) for _ in range(k)]
+        elif kind == "gauge":  # readings b.1 .. b.9 of a gauge around 1e6 .. 9e6 with a resolution of 0.1
+            b = rng.randint(1, 9) * 1_000_000
+            x = [b + rng.randint(1, 9) / 10 for _ in range(k)]
+        elif kind == "odometer":  # odometer readings within a few tens of units
+            b = int(10 ** rng.uniform(7.0, 8.95))
+            x = [float(b + rng.randint(0, 60)) for _ in range(k)]
+        elif kind == "cents":  # prices in cents near 2.5e6 differing by < 25
+            b = rng.randint(2_400_000, 2_600_000)
+            x = [float(b + rng.randint(0, 24)) for _ in range(k)]
+        elif kind == "bigweight":  # around 2.5e8, differing by about 1 (quarters: exact doubles)
+            b = rng.randint(200_000_000, 300_000_000)
+            x = [b + rng.randint(0, 12) / 4 for _ in range(k)]
+        else:
+            raise ValueError(kind)
+        if len(set(x)) >= 2:
+            return x
+    raise RuntimeError("could not draw an offset vector")
+
+
+def make_offset_case(rng, cfg):
+    """a plain case whose criteria (3 of 4; the others ordinary) and, when the weights are in the target (else 1 of 3), whose weight
+    vector have a large level and a small spread; whole-number kinds are int64 criteria half of the time"""
+    name, target, params = cfg
+    case = make_case(rng, cfg, magnitude="unit")
+    dm = case["dm"]
+    m, n = len(dm["matrix"]), len(dm["weights"])
+    kinds = [rng.choice(OFFSET_KINDS) if rng.random() < 0.75 else None for _ in range(n)]
+    if all(k is None for k in kinds):
+        kinds[rng.randrange(n)] = rng.choice(OFFSET_KINDS)
+    for j, kind in enumerate(kinds):
+        if kind is None:
+            continue
+        col = offset_vec(rng, kind, m)
+        for i in range(m):
+            dm["matrix"][i][j] = col[i]
+        dm["dtypes"][j] = "int" if OFFSET_WHOLE[kind] and rng.random() < 0.5 else "float"
+    on_weights = name != "CenitDistanceMatrixScaler" and target in ("weights", "both")
+    if on_weights or rng.random() < 1 / 3:
+        dm["weights"] = offset_vec(rng, rng.choice(OFFSET_KINDS), n)
+    dm["magnitude"] = "offset"
+    dm["offset_kinds"] = kinds
+    return case
 
 
 def make_sequence(rng, cfg):
@@ -400,16 +474,38 @@ def D(x):
 REL = Decimal("1e-9")
 
 
-def normal_form(name, params, xs, ys, obj=None):
+EPS = Decimal(2) ** -52
+
+
+def spread_rounding(name, params, xs):
+    """LARGE LEVEL / small spread data only ("magnitude": "offset").  'up to rounding' for the two normal forms that SUBTRACT a
+    location of the magnitude of the data (mean; min * scale) from data of that magnitude: the location and the k-term sum behind it
+    are doubles of the LEVEL of the criterion, so they carry (k + 4) units of rounding eps * max|x| in the units of the data; the
+    output is measured in units of the spread (std, or range mapped on hi - lo).  In the units of the output this is
+    (k + 4) * eps * max|x| / spread * (hi - lo or 1); 0 for every other scaler (quotients only: no cancellation, plain 1e-9)."""
+    x = [C.F(v) for v in xs]
+    k = len(x)
+    amax = D(max(abs(v) for v in x))
+    if name == "MinMaxScaler":
+        return (k + 4) * EPS * amax / D(max(x) - min(x)) * D(C.F(params["hi"]) - C.F(params["lo"]))
+    if name == "StandarScaler" and params["with_mean"]:
+        mean = sum(x) / k
+        std = D(sum((v - mean) ** 2 for v in x) / k).sqrt() if params["with_std"] else Decimal(1)
+        return (k + 4) * EPS * amax / std
+    return Decimal(0)
+
+
+def normal_form(name, params, xs, ys, obj=None, margin=Decimal(0)):
     """xs: one criterion (or the weight vector) before, ys: after.  Returns a list of
-    (what, expected, observed) for every clause of the property's text that fails."""
+    (what, expected, observed) for every clause of the property's text that fails.
+    margin: rounding relative to the spread (spread_rounding; 0 except on large-level / small-spread data)"""
     bad = []
     x = [C.F(v) for v in xs]
     y = [C.F(v) for v in ys]
     k = len(x)
 
     def close(a, b, scale, floor=1):
-        return abs(D(a) - D(b)) <= REL * max(Decimal(floor), D(scale))
+        return abs(D(a) - D(b)) <= REL * max(Decimal(floor), D(scale)) + margin
 
     def cells(expected, label, scale=None, floor=1):
         """floor=1: the output is a normal form (magnitude 1 or the configured range whatever the data is); floor=0: the output is in
@@ -538,9 +634,12 @@ def judge_one(case, dm, obs, rep, label=""):
     on_matrix = name == "CenitDistanceMatrixScaler" or target in ("matrix", "both")
     on_weights = name != "CenitDistanceMatrixScaler" and target in ("weights", "both")
     # matrix: criterion by criterion (axis 0)
+    offset = dm.get("magnitude") == "offset"
+    mg_cols = [spread_rounding(name, params, [A[i][j] for i in range(m)]) if offset else Decimal(0) for j in range(n)]
+    mg_w = spread_rounding(name, params, w) if offset else Decimal(0)
     if on_matrix:
         for j in range(n):
-            bad = normal_form(name, params, [A[i][j] for i in range(m)], [Y[i][j] for i in range(m)], o[j])
+            bad = normal_form(name, params, [A[i][j] for i in range(m)], [Y[i][j] for i in range(m)], o[j], mg_cols[j])
             if bad:
                 what, e, ob = bad[0]
                 prop(f"{what} [matrix, criterion {j}]", e, ob)
@@ -549,7 +648,7 @@ def judge_one(case, dm, obs, rep, label=""):
         prop(f"{name}(target={target}): the matrix is outside the target but changed", A, Y)
     # weights: the vector as a whole
     if on_weights:
-        bad = normal_form(name, params, w, wy)
+        bad = normal_form(name, params, w, wy, None, mg_w)
         if bad:
             what, e, ob = bad[0]
             prop(f"{what} [weights]", e, ob)
@@ -569,16 +668,19 @@ def judge_one(case, dm, obs, rep, label=""):
     mm = [[val(x) for x in r] for r in rep["M"]]
     mw = [val(x) for x in rep["w"]]
 
-    def far(a, b, floor=1.0):
-        return not (abs(a - b) <= 1e-9 * max(floor, abs(a)))
+    def far(a, b, floor=1.0, margin=0.0):
+        return not (abs(a - b) <= 1e-9 * max(floor, abs(a)) + margin)
 
     # shifts give an output in the units of the data: the floor of the scale is the magnitude of the input (never above 1)
     shift = name in ("PushNegatives", "AddValueToZero")
     fm = min(1.0, max(abs(v) for r in A for v in r) + abs(params.get("value", 0.0))) if shift else 1.0
     fw = min(1.0, max(abs(v) for v in w) + abs(params.get("value", 0.0))) if shift else 1.0
-    if len(mm) != m or any(far(a, b, fm) for ra, rb in zip(mm, Y) for a, b in zip(ra, rb)):
+    # large level / small spread: model (exact, or its own Float summation order) and implementation both within the rounding of the
+    # level relative to the spread of the exact value, so within twice that of each other
+    fc, fwm = [2 * float(g) for g in mg_cols], 2 * float(mg_w)
+    if len(mm) != m or any(far(a, b, fm, g) for ra, rb in zip(mm, Y) for a, b, g in zip(ra, rb, fc)):
         corr(f"{name}({target}) {params}: matrix, model vs implementation", mm, Y)
-    if len(mw) != n or any(far(a, b, fw) for a, b in zip(mw, wy)):
+    if len(mw) != n or any(far(a, b, fw, fwm) for a, b in zip(mw, wy)):
         corr(f"{name}({target}) {params}: weights, model vs implementation", mw, wy)
     if rep["O"] != ["max" if x == 1 else "min" for x in obs["objectives"]]:
         corr(f"{name}: objectives, model vs implementation", rep["O"], obs["objectives"])
@@ -595,6 +697,8 @@ def tags(case, obs):
     dt = case["dm"].get("dtypes") or ["float"]
     t.append("dtypes:" + ("int" if all(x == "int" for x in dt) else "float" if all(x == "float" for x in dt) else "mixed"))
     t.append("magnitude:" + case["dm"].get("magnitude", "unit"))
+    for kd in sorted({k for k in case["dm"].get("offset_kinds") or [] if k}):
+        t.append("offset-kind:" + kd)
     if case["malformed"]:
         t.append("malformed:" + ("refused" if "err" in obs else "accepted"))
     t.append("same-object-transforms:" + str(len(steps(case))))
